@@ -3,7 +3,6 @@
 -/
 import CosetProofs.Structures
 import CosetModel.Builders
-import CosetProofs.Ties
 namespace Coset.Props.C04
 open Coset Coset.Cbor Coset.Spec
 
@@ -55,11 +54,6 @@ theorem injective (c1 c2 : MacContext) (xs1 xs2 : List Bytes)
 example : macStructureData .coseMac0 (.mk (some []) Header.default) [] [0x61] = .ok [0x84, 0x64, 77, 65, 67, 48, 0x40, 0x40, 0x41, 0x61] := by decide
 
 
-/-! ### ties to the source text (regenerated on every run, compared in the kernel with the transcribed tree) -/
-/-- which context constant each helper passes to which structure function. -/
-theorem tie_context_routing : Coset.Gen.contextRouting = Coset.Pinned.contextRouting := Coset.Ties.context_routing
-
-#print axioms tie_context_routing
 #print axioms contexts
 #print axioms contexts_distinct
 #print axioms mac_structure
